@@ -108,6 +108,7 @@ func c07Cases(tier string, seed int64) []core.Case {
 			return res
 		}})
 	}
+	cases = append(cases, sharedFlushCases("C07", tier)...)
 	return cases
 }
 
